@@ -456,3 +456,101 @@ def r06_round_monotone(ctx):
     ctx.check(any(c.args and const_str(c.args[0]) == 'round' for c in calls), R, nr.node, nr,
               "newRound logs a 'round' action", "self.logAction('round', ...)", "newRound no longer logs 'round'",
               nontrivial=False)
+
+
+# ---------------------------------------------------------------------------
+# R00 the small helpers the other rules rely on mean what their names say
+# ---------------------------------------------------------------------------
+
+def _single_return(f):
+    body = [s for s in f.node.body if not (isinstance(s, ast.Expr) and isinstance(s.value, ast.Constant))]
+    if len(body) == 1 and isinstance(body[0], ast.Return) and body[0].value is not None:
+        return body[0].value
+    return None
+
+
+def r00_helper_semantics(ctx):
+    """Election.seatsLeftToFill / nSeats / nBallots, Ballot.topRank / topCand / restart, Candidate.zeroVote / addVote /
+    surplus, Candidates.byCid / byVote / select(order=...): the facts G, S, the alias table and the Gregory rules are
+    stated in terms of these helpers, so their bodies are obligations too."""
+    R = 'R00'
+    repo = ctx.repo
+    n = 0
+
+    def expect(qn, want, what, norm=lambda s: s):
+        nonlocal n
+        f = repo.func(qn)
+        v = _single_return(f)
+        got = norm(unparse(v)) if v is not None else None
+        n += 1
+        wants = want if isinstance(want, (list, tuple)) else [want]
+        ctx.check(got in wants, R, f.node, f, what, 'return %s' % got, '%s returns `%s`, expected `%s`' % (qn.split('.')[-1], got, wants[0]))
+
+    expect('droop.election.Election.seatsLeftToFill', 'self.nSeats - len(self.C.elected())',
+           'seats left to fill = seats - number of elected candidates (pending included)')
+    expect('droop.election.Election.nSeats', 'self.electionProfile.nSeats', 'E.nSeats is the profile\'s number of seats')
+    expect('droop.election.Election.nBallots', 'self.electionProfile.nBallots', 'E.nBallots is the profile\'s ballot total')
+    expect('droop.election.Election.candidate', 'self.C.byCid(cid)', 'E.candidate(cid) looks the candidate up by id')
+    expect('droop.candidates.Candidates.byCid', 'self._byCid[cid]', 'Candidates.byCid looks up the side table by id')
+    expect('droop.election.Election.Ballot.topRank', 'self.ranking[self.index] if self.index < len(self.ranking) else None',
+           'Ballot.topRank is the rank at the current index (None when exhausted)')
+    expect('droop.election.Election.Ballot.topCand',
+           'self.E.C.byCid(self.ranking[self.index]) if self.index < len(self.ranking) else None',
+           'Ballot.topCand is the candidate at the current index (None when exhausted)')
+    expect('droop.candidates.Candidates.byVote', 'sorted(candidates, key=lambda c: (c.vote, c.order), reverse=reverse)',
+           'Candidates.byVote sorts by ascending tally (ballot order only separates equal tallies)')
+    expect('droop.candidates.Candidates.byBallotOrder', 'sorted(candidates, key=lambda c: c.order, reverse=reverse)',
+           'Candidates.byBallotOrder sorts by ballot order')
+    # defaults reverse=False
+    for nm in ('byVote', 'byBallotOrder', 'byTieOrder', 'select', 'hopeful', 'elected', 'pending'):
+        f = repo.func('droop.candidates.Candidates.' + nm)
+        a = f.node.args
+        names = [x.arg for x in a.args]
+        if 'reverse' in names:
+            d = a.defaults[len(a.defaults) - (len(names) - names.index('reverse'))]
+            n += 1
+            ctx.check(isinstance(d, ast.Constant) and d.value is False, R, f.node, f, 'Candidates.%s sorts ascending unless asked otherwise' % nm,
+                      'reverse defaults to False', 'reverse defaults to %s' % unparse(d), nontrivial=False)
+    # side table: add() registers the candidate under its own id
+    add = repo.func('droop.candidates.Candidates.add')
+    ok = any(isinstance(s, ast.Assign) and unparse(s.targets[0]) == 'self._byCid[c.cid]' and unparse(s.value) == 'c' for s in add.own_nodes())
+    n += 1
+    ctx.check(ok, R, add.node, add, 'Candidates.add registers each candidate under its own id', 'self._byCid[c.cid] = c', 'side-table registration changed')
+    # select(order=...) dispatches to the sorter of the same name
+    sel = repo.func('droop.candidates.Candidates.select')
+    disp = {}
+    for s in sel.own_nodes():
+        if isinstance(s, ast.If) and isinstance(s.test, ast.Compare) and unparse(s.test.left) == 'order' and s.body and isinstance(s.body[0], ast.Return):
+            disp[const_str(s.test.comparators[0])] = unparse(s.body[0].value)
+    want = {'none': 'candidates', 'ballot': 'self.byBallotOrder(candidates, reverse=reverse)', 'tie': 'self.byTieOrder(candidates, reverse=reverse)',
+            'vote': 'self.byVote(candidates, reverse=reverse)'}
+    n += 1
+    ctx.check(disp == want, R, sel.node, sel, 'select(order=x) sorts with the sorter named x', str(disp), 'select() dispatch is %s' % disp)
+    # Candidate helpers
+    cand = repo.cls('droop.candidate.Candidate')
+    for nm, want_ in (('zeroVote', ['self.vote = self.E.V0']), ('addVote', ['self.vote += addValue'])):
+        f = cand.methods.get(nm)
+        need(f is not None, 'Candidate.%s missing' % nm)
+        body = [unparse(s) for s in f.node.body if not (isinstance(s, ast.Expr) and isinstance(s.value, ast.Constant))]
+        n += 1
+        ctx.check(body == want_, R, f.node, f, 'Candidate.%s does what its name says' % nm, '; '.join(body), 'Candidate.%s body is %s' % (nm, body))
+    sp = cand.methods.get('surplus')
+    need(sp is not None, 'Candidate.surplus missing')
+    body = [unparse(s) for s in sp.node.body if not (isinstance(s, ast.Expr) and isinstance(s.value, ast.Constant))]
+    n += 1
+    ctx.check(body == ['s = self.vote - self.E.quota', 'return self.E.V0 if s < self.E.V0 else s'], R, sp.node, sp,
+              'Candidate.surplus is max(tally - quota, 0)', '; '.join(body), 'Candidate.surplus body is %s' % body)
+    # Ballot.restart (QPQ): back to the first preference
+    rs = repo.func('droop.election.Election.Ballot.restart')
+    body = [unparse(s) for s in rs.node.body if not (isinstance(s, ast.Expr) and isinstance(s.value, ast.Constant))]
+    n += 1
+    ctx.check(body[:2] == ['self.index = 0', 'self.weight = weight'], R, rs.node, rs, 'Ballot.restart goes back to the first preference with the given weight',
+              '; '.join(body), 'Ballot.restart body is %s' % body, nontrivial=False)
+    # Ballot.__init__: multiplier is a value of the election's arithmetic, weight starts at one
+    bi = repo.func('droop.election.Election.Ballot.__init__')
+    txt = {unparse(s.targets[0]): unparse(s.value) for s in bi.own_nodes() if isinstance(s, ast.Assign)}
+    n += 1
+    ctx.check(txt.get('self.multiplier') == 'E.V(multiplier)' and txt.get('self.weight') == 'E.V1' and txt.get('self.index') == '0'
+              and txt.get('self.ranking') == 'ranking', R, bi.node, bi,
+              'a ballot starts at its first preference with weight one and the line\'s multiplier', str(txt), 'Ballot.__init__ changed: %s' % txt)
+    ctx.floor(R, 'helper definitions', n, 18)
